@@ -203,7 +203,7 @@ fn prf_get_s(o: &Option<get_assertion::UnsignedExtensionOutputs>) -> String {
     match o.as_ref().and_then(|u| u.prf.as_ref()) { None => "N".into(), Some(p) => format!("{}+{}", hexf(&p.results.first), p.results.second.map(|s| hexf(&s)).unwrap_or("N".into())) }
 }
 
-fn run_generic<S: Inner + 'static>(ctx: &mut Ctx, prop: &str, w: &World, inner: S, steps: &[Step]) {
+fn run_generic<S: Inner + 'static>(ctx: &mut Ctx, prop: &str, w: &World, inner: S, steps: &[Step], tw: &str) {
     let log = new_log();
     let uvst = Arc::new(Mutex::new(UvState::ok()));
     let yields = steps.iter().any(|s| s.cancel_after.is_some());
@@ -243,7 +243,7 @@ fn run_generic<S: Inner + 'static>(ctx: &mut Ctx, prop: &str, w: &World, inner: 
                 let ev = log.lock().unwrap().join(";");
                 let obs = format!("res={} ev={} store={}", r, if ev.is_empty() { "-".into() } else { ev }, snap(&auth.store().inner.all()));
                 ctx.stat(&format!("au.make.{}", r.split(':').next().unwrap()));
-                ctx.line(&format!("au.make {} {} {} {}{}", m.enc(), st.uv.enc(), faults_s(&st.faults), draws, cancel), &obs);
+                ctx.line(&format!("au.make {} {} {} {}{}{}", m.enc(), st.uv.enc(), faults_s(&st.faults), draws, cancel, tw), &obs);
             }
             Op::Get(g) => {
                 let req = g.real(Some(hmac_input()));
@@ -260,7 +260,7 @@ fn run_generic<S: Inner + 'static>(ctx: &mut Ctx, prop: &str, w: &World, inner: 
                 let ev = log.lock().unwrap().join(";");
                 let obs = format!("res={} ev={} store={}", r, if ev.is_empty() { "-".into() } else { ev }, snap(&auth.store().inner.all()));
                 ctx.stat(&format!("au.get.{}", r.split(':').next().unwrap()));
-                ctx.line(&format!("au.get {} {} {}{}", g.enc(), st.uv.enc(), faults_s(&st.faults), cancel), &obs);
+                ctx.line(&format!("au.get {} {} {}{}{}", g.enc(), st.uv.enc(), faults_s(&st.faults), cancel, tw), &obs);
             }
         }
     }
@@ -268,13 +268,17 @@ fn run_generic<S: Inner + 'static>(ctx: &mut Ctx, prop: &str, w: &World, inner: 
     ctx.stat("au.cases");
 }
 
-pub fn run_case(ctx: &mut Ctx, prop: &str, w: &World, steps: &[Step]) {
+pub fn run_case(ctx: &mut Ctx, prop: &str, w: &World, steps: &[Step]) { run_case_tw(ctx, prop, w, steps, "") }
+
+/// `twin`: a key pairing this case with the case that differs only in the store content (C04)
+pub fn run_case_tw(ctx: &mut Ctx, prop: &str, w: &World, steps: &[Step], twin: &str) {
+    let tw = if twin.is_empty() { String::new() } else { format!(" tw={}", twin) };
     match w.kind {
-        Kind::Map => run_generic(ctx, prop, w, MemoryStore::new(), steps),
-        Kind::Slot => run_generic(ctx, prop, w, None::<Passkey>, steps),
-        Kind::RefFull => run_generic(ctx, prop, w, RefStore::new(d_full), steps),
-        Kind::RefNonDisc => run_generic(ctx, prop, w, RefStore::new(d_non), steps),
-        Kind::RefForced => run_generic(ctx, prop, w, RefStore::new(d_forced), steps),
+        Kind::Map => run_generic(ctx, prop, w, MemoryStore::new(), steps, &tw),
+        Kind::Slot => run_generic(ctx, prop, w, None::<Passkey>, steps, &tw),
+        Kind::RefFull => run_generic(ctx, prop, w, RefStore::new(d_full), steps, &tw),
+        Kind::RefNonDisc => run_generic(ctx, prop, w, RefStore::new(d_non), steps, &tw),
+        Kind::RefForced => run_generic(ctx, prop, w, RefStore::new(d_forced), steps, &tw),
     }
 }
 
